@@ -28,9 +28,9 @@ func cursorOf(fn *types.Func) string {
 		t = p.Elem()
 	}
 	if n, ok := t.(*types.Named); ok && n.Obj().Pkg() != nil && n.Obj().Pkg().Path() == PathParser {
-		switch n.Obj().Name() {
+		switch objName(n.Obj()) {
 		case "parser", "scanner":
-			return n.Obj().Name()
+			return objName(n.Obj())
 		}
 	}
 	return ""
@@ -268,7 +268,7 @@ func (c *loopClient) entryRelative(e *Engine, x ast.Expr, infos ...*types.Info) 
 	if !ok || len(as.Lhs) != 1 || objOf(info, as.Lhs[0]) != o {
 		return 0, false
 	}
-	if f := selField(info, as.Rhs[0]); f == nil || f.Name() != "pos" {
+	if f := selField(info, as.Rhs[0]); f == nil || fldName(f) != "pos" {
 		return 0, false
 	}
 	return k, true
@@ -297,7 +297,7 @@ func (c *loopClient) PreAssign(e *Engine, st *State, lhs, rhs []ast.Expr, _ ast.
 func (c *loopClient) PostAssign(e *Engine, st *State, lhs, rhs []ast.Expr, _ ast.Stmt) *State {
 	// p.pos = saved: unknown progress
 	for _, l := range lhs {
-		if sel, ok := ast.Unparen(l).(*ast.SelectorExpr); ok && sel.Sel.Name == "pos" {
+		if sel, ok := ast.Unparen(l).(*ast.SelectorExpr); ok && selName(sel) == "pos" {
 			for k := range st.ext {
 				if strings.HasPrefix(k, "prog:") || k == "net" {
 					st = st.WithExt(k, "?")
@@ -769,7 +769,7 @@ func ruleC12Cursor(p *Program, r *Run) {
 			}
 			for i, l := range as.Lhs {
 				f := selField(info, l)
-				if f == nil || f.Name() != "pos" || !strings.HasSuffix(TypeStr(info.TypeOf(ast.Unparen(l).(*ast.SelectorExpr).X)), "parser.parser") {
+				if f == nil || fldName(f) != "pos" || !strings.HasSuffix(TypeStr(info.TypeOf(ast.Unparen(l).(*ast.SelectorExpr).X)), "parser.parser") {
 					continue
 				}
 				fn := FuncName(pkg, fd)
@@ -779,7 +779,7 @@ func ruleC12Cursor(p *Program, r *Run) {
 					if o := objOf(info, as.Rhs[i]); o != nil {
 						ast.Inspect(fd.Body, func(m ast.Node) bool {
 							if d, ok := m.(*ast.AssignStmt); ok && len(d.Lhs) == 1 && len(d.Rhs) == 1 && objOf(info, d.Lhs[0]) == o && d.Pos() < as.Pos() {
-								if ff := selField(info, d.Rhs[0]); ff != nil && ff.Name() == "pos" {
+								if ff := selField(info, d.Rhs[0]); ff != nil && fldName(ff) == "pos" {
 									saved = true
 								}
 							}
